@@ -701,3 +701,178 @@ Proof.
   split; vm_compute; reflexivity.
 Qed.
 
+
+(* ================================================================================================== *)
+(* added from Properties/C02_add.v (2026-10-01)                                              *)
+(* ================================================================================================== *)
+(* C02 (addition): comments at statement boundaries, read with comments = TRUE, in arbitrary layouts. *)
+From Coq Require Import String.   (* string literals of the examples; imported first so the list names win *)
+From Coq Require Import NArith ZArith List Bool.
+From DictIO Require Import Chars Str Value Scalar KeyPath SDict Lexer TokParser TreeSpec NativeSpec LayoutSpec E2ESpec LayoutProofs.
+From DictIO Require Import E2EHoles E2EFullProofs AnyLayoutProofs AnyLayoutComments.
+From DictIO Require Import RereadTree RereadLex RereadNum RereadProofs AnyLayoutCommentsOn.
+Import ListNotations.
+
+(* ================================================================================================================== *)
+(* Vocabulary (RereadTree, RereadProofs, AnyLayoutCommentsOn).                                                          *)
+(*   c          the document WITH its comments, in canonical form: a comment is an entry (KS LINECOMMENT, text) or      *)
+(*              (KS BLOCKCOMMENT, text) among the entries of its dict level -- i.e. it stands where a statement could   *)
+(*              begin or end: before `key value;`, before `key {`, after `;`, after `}`, inside an (empty) dict; not      *)
+(*              between a key and its value and not inside a list;  cdoc_any c: ordinary entries in the writer domain    *)
+(*              with unique keys per dict, literals at most ten keys deep, line comment texts pairwise distinct, block    *)
+(*              comment texts pairwise distinct;  cstrip (Dict c) = Dict kvs: the tree without the comment entries;        *)
+(*   lc_list c, bc_list c, lit_list c   the line comment texts, block comment texts, quoted literals in text order;      *)
+(*   lc_tab count c = combine (ids count n) (lc_list c),  bc_tab c = number_from 0 (bc_list c)   the tables;            *)
+(*   ph_doc count c   the placeholder document: every comment entry replaced by (KS P, Leaf (SStr P)), P the placeholder *)
+(*              LINECOMMENT%06d / BLOCKCOMMENT%06d of its id;  cdoc_toks fs d: its token list, one token P per comment,    *)
+(*              the quoted leaves spelled as given by fs (either kind of quotes, as in C02_parse_any_layout_quoted);        *)
+(*   number count c   the SDict with the placeholder document's data (leaves as the classifier reads them) + the tables.  *)
+(* The text:  Tc as written;  lcn true ks xs Tc T1: T1 is Tc with the placeholder lph k in place of the line comment      *)
+(*   (ks, xs in text order; a comment stands before LF, before CR LF -- the CR then belongs to the comment text, as       *)
+(*   the library has it -- or at the end of the text);  T1 = flat all_kept p0 cps cut into plain stretches and block      *)
+(*   comments;  flatD (bc_tab c) p0 cps: T1 with the placeholder bph i in place of the i-th block comment;  that text is  *)
+(*   a layout (rendering, any white space) of the placeholder document's token list.                                       *)
+(* Side conditions on T1 as in C02_parse_commented (nopair, hash_safe, plain_in, seg_ok).                                   *)
+(* ================================================================================================================== *)
+Theorem C02_parse_commented_on_exact : forall c fs txt w1 w2 Tc p0 cps dirc count,
+  cdoc_any c = true -> Forall2 spelling fs (lit_list c) -> (-1 <= count)%Z ->
+  (Z.of_nat (length (lc_list c)) <= 1000000)%Z -> (Z.of_nat (length (bc_list c)) <= 1000000)%Z ->
+  (Z.of_nat (length (lit_list c)) <= 1000000)%Z ->
+  lcn true (ids count (length (lc_list c))) (lc_list c) Tc (flat all_kept p0 cps) ->
+  nopair c_slash c_slash (flat all_kept p0 cps) = true -> hash_safe false (flat all_kept p0 cps) = true ->
+  plain_in p0 = true -> forallb seg_ok cps = true ->
+  map (fun cp => bcomment (fst cp)) cps = bc_list c ->
+  flatD (bc_tab c) p0 cps = w1 ++ txt ++ w2 ->
+  rendering (cdoc_toks fs (ph_doc count c)) txt -> ws_run w1 -> ws_run w2 ->
+  parse_string true dirc count Tc = Ok (mkParsed (number count c) (count_after count c)).
+Proof. exact parse_commented_on. Qed.
+Print Assumptions C02_parse_commented_on_exact.
+
+(* In terms of the tree kvs: the ORDINARY data of the result (comment placeholder entries dropped at every depth) is the
+   tree, leaves as the classifier reads them -- the data C02_parse_commented gives for comments = false;  the canonical
+   form of the result is the document c (every comment with its exact text at its place among the entries of its dict
+   level);  the line comment table lists the comment texts in text order under consecutive ids from the counter, the
+   block comment table the block comments numbered from zero;  the counter advances by the number of line comments and
+   quoted literals. *)
+Theorem C02_parse_commented_on : forall c kvs fs txt w1 w2 Tc p0 cps dirc count,
+  cdoc_any c = true -> cstrip (Dict c) = Dict kvs -> Forall2 spelling fs (qstrs (Dict kvs)) -> (-1 <= count)%Z ->
+  (Z.of_nat (length (lc_list c)) <= 1000000)%Z -> (Z.of_nat (length (bc_list c)) <= 1000000)%Z ->
+  (Z.of_nat (nq (Dict kvs)) <= 1000000)%Z ->
+  lcn true (ids count (length (lc_list c))) (lc_list c) Tc (flat all_kept p0 cps) ->
+  nopair c_slash c_slash (flat all_kept p0 cps) = true -> hash_safe false (flat all_kept p0 cps) = true ->
+  plain_in p0 = true -> forallb seg_ok cps = true ->
+  map (fun cp => bcomment (fst cp)) cps = bc_list c ->
+  flatD (bc_tab c) p0 cps = w1 ++ txt ++ w2 ->
+  rendering (cdoc_toks fs (ph_doc count c)) txt -> ws_run w1 -> ws_run w2 ->
+  exists p, parse_string true dirc count Tc = Ok p /\
+    cstrip (Dict (sd_data (pr_sd p))) = map_leaves written_value (Dict kvs) /\
+    canon (pr_sd p) = cwv c /\
+    sd_lc (pr_sd p) = combine (ids count (length (lc_list c))) (lc_list c) /\
+    sd_bc (pr_sd p) = number_from 0 (bc_list c) /\ sd_inc (pr_sd p) = [] /\ sd_expr (pr_sd p) = [] /\
+    pr_count p = cafter (cafter count (length (lc_list c))) (nq (Dict kvs)).
+Proof. exact parse_commented_on_data. Qed.
+Print Assumptions C02_parse_commented_on.
+(* non-vacuity (the document, the text and its decompositions: AnyLayoutCommentsOn, section E): nested dicts, a list with
+   a quoted string (spelled with double quotes in the text), a block comment in front of the first statement, line comments
+   on a line of their own / behind an opening brace (that line ends with CR LF) / behind a closing brace / at the end, block
+   comments in front of a statement, behind a list (two lines long), as the only content of a nested dict, behind a closing
+   brace (that line ends with CR LF), tabs and blanks; counter 5 *)
+Example C02_parse_commented_on_nonvacuous :
+  cdoc_any ex_on_doc = true /\ cstrip (Dict ex_on_doc) = Dict ex_on_tree /\
+  lcn true (ids 5 (length (lc_list ex_on_doc))) (lc_list ex_on_doc) ex_on_Tc (flat all_kept ex_on_p0 ex_on_cps) /\
+  flatD (bc_tab ex_on_doc) ex_on_p0 ex_on_cps = [c_lf] ++ ex_on_txt ++ [c_lf] /\
+  rendering (cdoc_toks ex_on_fs (ph_doc 5 ex_on_doc)) ex_on_txt /\
+  parse_string true [] 5 ex_on_Tc = Ok (mkParsed (number 5 ex_on_doc) (count_after 5 ex_on_doc)) /\
+  (exists p, parse_string true [] 5 ex_on_Tc = Ok p /\
+     cstrip (Dict (sd_data (pr_sd p))) = Dict ex_on_tree /\ canon (pr_sd p) = ex_on_doc /\
+     sd_lc (pr_sd p) = [(6%N, of_string "// first comment, on a line of its own"); (7%N, of_string "// in a" ++ [c_cr]);
+                        (8%N, of_string "// after sub"); (9%N, of_string "// end")] /\
+     sd_bc (pr_sd p) = [(0%N, of_string "/* header */"); (1%N, of_string "/* before x */"); (2%N, bcomment ex_on_b2);
+                        (3%N, of_string "/* only */"); (4%N, of_string "/* after a */")] /\
+     pr_count p = 11%Z).
+Proof.
+  destruct ex_on_facts as (Hc & Ek & Hsp & HL & Hnp & Hhs & Hp0 & Hcps & Hbc & HT & HR).
+  assert (H1 : ws_run [c_lf]) by on_ws_run_tac.
+  assert (Hl : lit_list ex_on_doc = qstrs (Dict ex_on_tree)) by (vm_compute; reflexivity).
+  assert (Hsp' : Forall2 spelling ex_on_fs (lit_list ex_on_doc)) by (rewrite Hl; exact Hsp).
+  assert (N1 : (Z.of_nat (length (lc_list ex_on_doc)) <= 1000000)%Z) by (vm_compute; discriminate).
+  assert (N2 : (Z.of_nat (length (bc_list ex_on_doc)) <= 1000000)%Z) by (vm_compute; discriminate).
+  assert (N3 : (Z.of_nat (length (lit_list ex_on_doc)) <= 1000000)%Z) by (vm_compute; discriminate).
+  assert (N4 : (Z.of_nat (nq (Dict ex_on_tree)) <= 1000000)%Z) by (vm_compute; discriminate).
+  refine (conj Hc (conj Ek (conj HL (conj HT (conj HR (conj _ _)))))).
+  - exact (C02_parse_commented_on_exact ex_on_doc ex_on_fs ex_on_txt _ _ ex_on_Tc ex_on_p0 ex_on_cps [] 5%Z Hc Hsp' ltac:(discriminate)
+             N1 N2 N3 HL Hnp Hhs Hp0 Hcps Hbc HT HR H1 H1).
+  - destruct (C02_parse_commented_on ex_on_doc ex_on_tree ex_on_fs ex_on_txt _ _ ex_on_Tc ex_on_p0 ex_on_cps [] 5%Z Hc Ek Hsp
+                ltac:(discriminate) N1 N2 N4 HL Hnp Hhs Hp0 Hcps Hbc HT HR H1 H1) as (p & P & D & Cn & TL & TB & _ & _ & Pc).
+    exists p. split; [exact P|].
+    assert (Ew : map_leaves written_value (Dict ex_on_tree) = Dict ex_on_tree) by (vm_compute; reflexivity).
+    assert (Ec : cwv ex_on_doc = ex_on_doc) by (vm_compute; reflexivity).
+    rewrite Ew in D. rewrite Ec in Cn. split; [exact D|]. split; [exact Cn|].
+    split; [rewrite TL; vm_compute; reflexivity|]. split; [rewrite TB; vm_compute; reflexivity|]. rewrite Pc. vm_compute. reflexivity.
+Qed.
+
+(* ... and by computation: both readings of the text, the ordinary part of the first is the second *)
+Example C02_parse_commented_on_computed :
+  match parse_string true [] 5 ex_on_Tc, parse_string false [] 5 ex_on_Tc with
+  | Ok p, Ok q => cstrip (Dict (sd_data (pr_sd p))) = Dict (sd_data (pr_sd q)) /\ sd_data (pr_sd q) = ex_on_tree /\
+                  sd_data (pr_sd p) <> sd_data (pr_sd q) /\ length (cms (Dict (sd_data (pr_sd p)))) = 9%nat /\
+                  sd_lc (pr_sd p) = sd_lc (pr_sd q) /\ sd_bc (pr_sd p) = sd_bc (pr_sd q) /\ pr_count p = 11%Z /\ pr_count q = 11%Z
+  | _, _ => False
+  end.
+Proof. vm_compute. repeat split; try reflexivity. discriminate. Qed.
+
+(* ---- findings: what delimits the class (each evaluated on the model; 1-4 confirmed on the library itself) ----------- *)
+(* the ordinary data read with comments = true (counter 0, as tree_read for comments = false) *)
+Definition tree_read_on (text : str) : option (list (key * tree)) :=
+  match parse_string true [] 0%Z text with Ok p => Some (kvs_of (cstrip (Dict (sd_data (pr_sd p))))) | Raise _ => None end.
+
+(* 1. a block comment between a key and its value: with comments on THE ENTRY IS LOST (the placeholder token stops the
+      backward collection of the key-value pair at the semicolon; "tokens skipped" is logged), with comments off it is read *)
+Example C02_on_between_key_and_value_finding :
+  tree_read_on (of_string "a /* c */ 1; b 2;") = Some [kv_b2] /\ tree_read (of_string "a /* c */ 1; b 2;") = Some [kv_a1; kv_b2].
+Proof. split; vm_compute; reflexivity. Qed.
+(* 2. the same with a line comment behind the key *)
+Example C02_on_line_comment_behind_key_finding :
+  tree_read_on (of_string "a // c
+1; b 2;") = Some [kv_b2] /\ tree_read (of_string "a // c
+1; b 2;") = Some [kv_a1; kv_b2].
+Proof. split; vm_compute; reflexivity. Qed.
+(* 3. a comment between the value and the semicolon: the entry is lost as well *)
+Example C02_on_before_semicolon_finding :
+  tree_read_on (of_string "a 1 /* c */ ; b 2;") = Some [kv_b2] /\ tree_read (of_string "a 1 /* c */ ; b 2;") = Some [kv_a1; kv_b2].
+Proof. split; vm_compute; reflexivity. Qed.
+(* 4. a comment inside a list: its placeholder becomes a list item *)
+Example C02_on_inside_list_finding :
+  tree_read_on (of_string "a ( 1 /* c */ 2 ); b 2;") =
+    Some [(KS (of_string "a"), Lst [Leaf (SInt 1); Leaf (SStr (of_string "BLOCKCOMMENT000000")); Leaf (SInt 2)]); kv_b2] /\
+  tree_read (of_string "a ( 1 /* c */ 2 ); b 2;") = Some [(KS (of_string "a"), Lst [Leaf (SInt 1); Leaf (SInt 2)]); kv_b2].
+Proof. split; vm_compute; reflexivity. Qed.
+(* 5. harmless although not at a statement boundary (outside the class of the theorem, the ordinary data is right): a
+      comment between a key and the opening brace of its dict, between a list and its semicolon *)
+Example C02_on_harmless_elsewhere :
+  tree_read_on (of_string "a // c
+{ x 1; } b 2;") = Some [(KS (of_string "a"), Dict [(KS (of_string "x"), Leaf (SInt 1))]); kv_b2] /\
+  tree_read_on (of_string "a ( 1 2 ) /* c */ ; b 2;") = Some [(KS (of_string "a"), Lst [Leaf (SInt 1); Leaf (SInt 2)]); kv_b2].
+Proof. split; vm_compute; reflexivity. Qed.
+(* 6. two equal block comments in one dict: both get the placeholder of the first, the parser keeps one entry, the table
+      lists both -- the ordinary data is right, but the result is not number count c (hence NoDup (bc_list c) in cdoc_any);
+      two equal line comments in one dict: SDict._clean drops the second entry and its table row (C12_finding_equal_line_comments) *)
+Example C02_on_equal_block_comments_finding :
+  match parse_string true [] 0%Z (of_string "/* c */ a 1; /* c */ b 2;") with
+  | Ok p => map fst (sd_data (pr_sd p)) = [KS (of_string "BLOCKCOMMENT000000"); KS (of_string "a"); KS (of_string "b")] /\
+            sd_bc (pr_sd p) = [(0%N, of_string "/* c */"); (1%N, of_string "/* c */")] /\
+            cstrip (Dict (sd_data (pr_sd p))) = Dict [kv_a1; kv_b2]
+  | Raise _ => False
+  end.
+Proof. vm_compute. repeat split; reflexivity. Qed.
+(* 7. the placements excluded by the side conditions on the text (C02_comment_counterexamples, comments = false) change
+      the ordinary data with comments = true as well *)
+Example C02_on_comment_counterexamples :
+  tree_read_on (of_string "a 1; /* c */ // d
+b 2;") = Some [kv_a1; kv_b2] /\
+  tree_read_on (of_string "a/* c */1; b 2;") = Some [kv_b2] /\
+  tree_read_on (of_string "a// c" ++ [c_cr] ++ of_string "1; b 2;") = Some [kv_b2] /\
+  tree_read_on (of_string "a 1; /* c *//* d */ b 2;") = Some [kv_a1] /\
+  tree_read_on (of_string "a 1; /* c // d */ b 2;") = Some [kv_a1] /\
+  tree_read_on (of_string "a 1; /*y*/ b /*x/*y*/ 2;") = Some [kv_a1].
+Proof. repeat split; vm_compute; reflexivity. Qed.
